@@ -945,6 +945,8 @@ var commonAssumptions = []string{
 var engineMeta = map[string]meta{
 	"bsp": {real: []string{"sdk/trace (batch_span_processor.go, provider.go, span.go, tracer.go) instrumented by simgen from the current working tree", "internal/global"},
 		stub: []string{"SpanExporter (scripted: ok/error/slow/hang-until-ctx)"}, assumptions: commonAssumptions},
+	"spanlin": {real: []string{"sdk/trace (span.go, tracer.go, provider.go, snapshot.go, evictedqueue.go) instrumented by simgen from the current working tree", "Go runtime/trace (really enabled in half of the seed blocks)", "porcupine v1.3.0 linearizability checker"},
+		stub: []string{"recording SpanProcessor(s) that deep-copy the snapshot at OnEnd"}, assumptions: append([]string{"the sequential span model covers default span limits only (limits and truncation are C04, not claimed)"}, commonAssumptions...)},
 	"logbatch": {real: []string{"sdk/log (batch.go, exporter.go, ring.go, logger.go, record.go, provider.go) instrumented by simgen from the current working tree", "internal/global"},
 		stub: []string{"log.Exporter (scripted: ok/error/slow/hang-until-ctx)", "a second Processor that mutates the record it is given"}, assumptions: commonAssumptions},
 }
